@@ -4,7 +4,7 @@
 # unchanged) and runs the property's check against the patched worktree.
 WT="$1"; MD="$2"; PROP="$3"; shift 3
 export OPENBLAS_NUM_THREADS=1 OMP_NUM_THREADS=1
-git -C "$WT" checkout -q -- . || exit 9
+git -C "$WT" checkout -q -- . && git -C "$WT" checkout -q --detach main || exit 9
 ( cd "$WT" && PYTHONPATH="$WT/src" timeout 1200 /venv/bin/python "$MD/demo.py" >/dev/null 2>&1 ); echo "demo on clean tree: exit $?"
 git -C "$WT" apply "$MD/patch.diff" || { echo "PATCH DOES NOT APPLY"; exit 9; }
 ( cd "$WT" && PYTHONPATH="$WT/src" timeout 1200 /venv/bin/python "$MD/demo.py" >/dev/null 2>&1 ); echo "demo with patch: exit $?"
